@@ -131,6 +131,10 @@ func (g *nGen) cond(env nEnv) (string, nEnv, nEnv, string) {
 	thenE[t1.name] = t1.then
 	elseE[t1.name] = t1.els
 	text, kind := t1.text, t1.kind
+	if t1.kind == "is_a?" && contains(env[t1.name], "NilClass") && g.r.Chance(1, 4) {
+		// a redundant second term: `x.is_a?(C) && !x.nil?` holds exactly for C
+		return text + " && !" + t1.name + ".nil?", thenE, elseE, kind + "&&same:!nil?"
+	}
 	if len(t1.then) >= 2 && g.r.Chance(1, 4) {
 		// a second test of the same variable: `!x.nil? && x.is_a?(C)`; it holds
 		// for exactly one class, so the false side is everything else
